@@ -1585,7 +1585,7 @@ class Interp:
             if "tensorflow_probability/python" in fn or "tensorflow_probability/substrates" in fn:
                 return True
             for ln in range(fr.line_num, max(fr.line_num - 12, 0), -1):
-                if re.search(r"\b(scan|while_loop|fori_loop|map)\s*\(", linecache.getline(fn, ln)):
+                if re.search(r"\b(scan|while_loop|fori_loop|map|bind|eval_jaxpr\w*)\s*\(", linecache.getline(fn, ln)):  # own loop, or an interpreter re-binding one
                     return False
             return True
         return False
